@@ -174,7 +174,7 @@ func run(r *ev.Run, cfg props.Cfg) {
 				w := mexplore.NewWorld(rng, n, rng.Intn(n), app, 1+rng.Intn(2))
 				sc := &scenario{w: w, length: 5 + rng.Intn(36)}
 				for p := 0; p < n-1; p++ {
-					sc.peers = append(sc.peers, gen.WireAddr(rng))
+					sc.peers = append(sc.peers, gen.WireAddrAny(rng))
 				}
 				if rng.Intn(3) == 0 {
 					id := gen.ID(rng)
